@@ -9,7 +9,8 @@ documented lock-free reads, which the model has as separate steps / which only t
     dns.btreezone.WritableVersion.__init__    reads  zone._versions[-1]
     Zone.writer, after the admission loop     reads  self._write_txn  (its own transaction)
     the policy closure of set_max_versions    reads  zone._versions   (only ever called by the prune loop)
-and no Event.wait() happens inside a `with self._version_lock:` block.
+and no Event.wait() happens inside a `with self._version_lock:` block; the only wait is `event.wait()` in
+writer(), without a timeout.
 
 The lock-free reads are pinned to their exact SHAPE: the model's argument (`latest_stable_for_writer`) is that
 only the admitted writer appends and pruning never removes the newest version, so a lock-free read is safe only
@@ -65,6 +66,7 @@ class Visitor(ast.NodeVisitor):
         self.accesses = []     # (field, func path, lineno, locked, store, base name)
         self.unlocked_calls = []  # (callee, func path, lineno, locked)
         self.waits_under_lock = []
+        self.timed_waits = []
 
     def visit_ClassDef(self, node):
         self.cls.append(node.name)
@@ -117,6 +119,8 @@ class Visitor(ast.NodeVisitor):
                 self.unlocked_calls.append((f.attr, tuple(self.cls), tuple(self.stack), node.lineno, self.lock_depth > 0))
             if f.attr == "wait" and self.lock_depth > 0:
                 self.waits_under_lock.append((tuple(self.stack), node.lineno))
+            if f.attr == "wait" and (node.args or node.keywords):
+                self.timed_waits.append((tuple(self.stack), node.lineno))
         self.generic_visit(node)
 
 
@@ -193,6 +197,14 @@ def guard():
             problems.append(f"{rel}:{line} {'.'.join(stack)}: calls {callee} without holding the lock")
         for stack, line in v.waits_under_lock:
             problems.append(f"{rel}:{line} {'.'.join(stack)}: Event.wait() while holding _version_lock")
+        if rel == os.path.join("dns", "versioned.py"):
+            for stack, line in v.timed_waits:
+                problems.append(f"{rel}:{line} {'.'.join(stack)}: Event.wait with a timeout: the model's wait returns only "
+                                "when the event is set (a timed-out waiter re-queues a new event and strands the old one)")
+            facts_waits = [n for n in ast.walk(tree) if isinstance(n, ast.Call) and isinstance(n.func, ast.Attribute)
+                           and n.func.attr == "wait"]
+            if len(facts_waits) != 1:
+                problems.append(f"{rel}: expected exactly one Event.wait() (in writer()), found {len(facts_waits)}")
     facts["accesses_checked"] = total
     if total < 20:
         problems.append(f"only {total} accesses to the shared fields found: the guard no longer recognises the code")
